@@ -263,7 +263,7 @@ fn bsel() -> impl Strategy<Value = BSel> {
 }
 
 pub fn op_strategy(w: OpWeights, surface: Surface) -> BoxedStrategy<Op> {
-    let sz = prop_oneof![3 => 1u8..4, 3 => Just(4u8), 3 => Just(5u8), 2 => Just(6u8), 1 => Just(0u8)];
+    let sz = prop_oneof![12 => 1u8..4, 12 => Just(4u8), 12 => Just(5u8), 8 => Just(6u8), 4 => Just(0u8), 1 => Just(8u8)];
     let sz2 = sz.clone();
     let sz3 = sz.clone();
     let mut v: Vec<(u32, BoxedStrategy<Op>)> = vec![];
@@ -465,6 +465,63 @@ fn mid_flush_hook(site: u32) {
 /// is what they were before - harmless.  It goes wrong when the two ssts come from DIFFERENT levels
 /// (or both from level 0, or truly overlap): they end up side by side in one level although their
 /// key ranges overlap or their order by first key is not their order by age.
+/// The deepest level recovery (tree/recover.rs) would assign before its squeeze: the longest path, in
+/// edges, through the condensation of the graph it builds over the live ssts.
+pub fn recovery_max_level(files: &[&SstMetadata]) -> usize {
+    let n = files.len();
+    if n == 0 {
+        return 0;
+    }
+    let mut reach = vec![vec![false; n]; n];
+    for i in 0..n {
+        for j in i + 1..n {
+            let (x, y) = (files[i], files[j]);
+            if !(x.first_key <= y.last_key && y.first_key <= x.last_key) {
+                continue;
+            }
+            if x.biggest_timestamp < y.smallest_timestamp {
+                reach[j][i] = true;
+            } else if y.biggest_timestamp < x.smallest_timestamp {
+                reach[i][j] = true;
+            } else {
+                reach[i][j] = true;
+                reach[j][i] = true;
+            }
+        }
+    }
+    let edge = reach.clone();
+    for k in 0..n {
+        for i in 0..n {
+            if reach[i][k] {
+                for j in 0..n {
+                    if reach[k][j] {
+                        reach[i][j] = true;
+                    }
+                }
+            }
+        }
+    }
+    // component representative: the smallest index mutually reachable
+    let comp: Vec<usize> = (0..n).map(|i| (0..n).find(|j| *j == i || (reach[i][*j] && reach[*j][i])).unwrap()).collect();
+    // longest path by relaxation (the condensation is acyclic, so n rounds suffice)
+    let mut depth = vec![0usize; n];
+    for _ in 0..n {
+        let mut changed = false;
+        for i in 0..n {
+            for j in 0..n {
+                if edge[i][j] && comp[i] != comp[j] && depth[comp[j]] < depth[comp[i]] + 1 {
+                    depth[comp[j]] = depth[comp[i]] + 1;
+                    changed = true;
+                }
+            }
+        }
+        if !changed {
+            break;
+        }
+    }
+    depth.into_iter().max().unwrap_or(0)
+}
+
 pub fn rd_predicate_prestate(levels: &[Vec<SstMetadata>]) -> bool {
     let mut files: Vec<(usize, &SstMetadata)> = vec![];
     for (li, l) in levels.iter().enumerate() {
@@ -473,12 +530,14 @@ pub fn rd_predicate_prestate(levels: &[Vec<SstMetadata>]) -> bool {
         }
     }
     let n = files.len();
-    // Recovery squeezes a dependency chain deeper than NUM_LEVELS into level 0 from the top, which
-    // can push a component of siblings into level 0 although something newer overlaps it.  A chain
-    // is at most (files of level 0) + (occupied deeper levels) long: when that exceeds NUM_LEVELS
-    // every touching pair with overlapping timestamps counts (the broad predicate).
-    let chain_bound = levels[0].len() + levels[1..].iter().filter(|l| !l.is_empty()).count();
-    if chain_bound > lsmtk::NUM_LEVELS {
+    // Recovery squeezes a dependency graph deeper than NUM_LEVELS into level 0 from the top, which
+    // can push one sibling of a component into level 0 and leave the other below it.  The depth
+    // is the longest path through the graph recovery builds (an edge from the newer to the older of
+    // two ssts whose key ranges touch, both ways when their timestamp ranges overlap) - siblings of
+    // one level that share a boundary key add to it, so it is not bounded by the number of levels.
+    // When the squeeze would happen every touching pair with overlapping timestamps counts (the
+    // broad predicate).
+    if recovery_max_level(&files.iter().map(|(_, m)| *m).collect::<Vec<_>>()) >= lsmtk::NUM_LEVELS {
         return rd_predicate(levels);
     }
     // union-find over the "same component" relation (key ranges touch and timestamp ranges overlap)
@@ -1683,7 +1742,21 @@ pub fn write_set(universe: &[Vec<u8>], tag: &mut u32, op: &Op) -> Option<Vec<(Ve
         }
         Op::BigBatch { n } => {
             let count = (*n as usize).min(universe.len());
-            Some(universe.iter().take(count).map(|k| (k.clone(), Some(fresh(7)))).collect())
+            // the whole batch stays within the documented maximum batch size (long keys)
+            let mut room = sst::MAX_BATCH_LEN.saturating_sub(64 * 1024);
+            let keys: Vec<&Vec<u8>> = universe
+                .iter()
+                .take(count)
+                .take_while(|k| {
+                    let need = k.len() + 30_000 + 32;
+                    let fits = need <= room;
+                    if fits {
+                        room -= need;
+                    }
+                    fits
+                })
+                .collect();
+            Some(keys.into_iter().map(|k| (k.clone(), Some(fresh(7)))).collect())
         }
         _ => None,
     }
